@@ -776,20 +776,24 @@ pub fn c15(id: &str, f: &Forest, r: &[(CompressionType, Enc)], out: &mut Vec<Str
     };
     let check = |path: &str, f: &Forest, e: &Enc, out: &mut Vec<String>| {
         let quantise = path == "write";
-        let unmigratable: Vec<String> = f
+        let unmig_all: Vec<(String, bool)> = f
             .nodes
             .iter()
             .flat_map(|n| {
                 pairs.iter().filter_map(move |(l, _, m)| {
-                    n.props.iter().find(|(k, _)| k == l).and_then(|(_, v)| if m.perform(v).is_err() { Some(format!("{}.{l} = {}", n.class, cut(&forest::value_with_labels(v)))) } else { None })
+                    n.props.iter().find(|(k, _)| k == l).and_then(|(_, v)| if m.perform(v).is_err() { Some((format!("{}.{l} = {}", n.class, cut(&forest::value_with_labels(v))), recorded_unmigratable(v))) } else { None })
                 })
             })
             .collect();
+        // failures outside the recorded class first: they decide the key
+        let unexpected: Vec<String> = unmig_all.iter().filter(|(_, rec)| !*rec).map(|(t, _)| t.clone()).collect();
+        let unmigratable: Vec<String> = unexpected.iter().cloned().chain(unmig_all.iter().filter(|(_, rec)| *rec).map(|(t, _)| t.clone())).collect();
+        let unmig_file_key = if !unexpected.is_empty() { "migration-fails" } else { "unmigratable" };
         let bytes = match e {
             Enc::Bytes(b) => b,
             other => {
                 if !unmigratable.is_empty() {
-                    out.push(format!("{id} C15 unmigratable path={path} {} has no migration and writing gives {}", unmigratable[0], describe(other)));
+                    out.push(format!("{id} C15 {unmig_file_key} path={path} {} has no migration and writing gives {}", unmigratable[0], describe(other)));
                 } else {
                     out.push(format!("{id} C15 value path={path} writing fails: {}", describe(other)));
                 }
@@ -799,7 +803,7 @@ pub fn c15(id: &str, f: &Forest, r: &[(CompressionType, Enc)], out: &mut Vec<Str
         let dom = match decode(bytes) {
             Dec::Dom(d) => d,
             Dec::Err(k, m) => {
-                let key = if unmigratable.is_empty() { "value" } else { "unmigratable" };
+                let key = if unmigratable.is_empty() { "value" } else { unmig_file_key };
                 out.push(format!("{id} C15 {key} path={path} reading fails: {k} {}", cut(&m)));
                 return;
             }
@@ -851,7 +855,7 @@ pub fn c15(id: &str, f: &Forest, r: &[(CompressionType, Enc)], out: &mut Vec<Str
                                 }
                             }
                         }
-                        Err(_) => emit("unmigratable", format!("{legacy} = {} has no migration to {new_name}; read back {new_name} = {}", show(l0), dv.map(|d| show(d)).unwrap_or_else(|| "absent".into())), out),
+                        Err(_) => emit(unmig_key(l0), format!("{legacy} = {} has no migration to {new_name}; read back {new_name} = {}", show(l0), dv.map(|d| show(d)).unwrap_or_else(|| "absent".into())), out),
                     },
                     (Some(l0), Some(n0)) => {
                         let ev = norm_value(n0, known, ser_ty);
@@ -923,4 +927,17 @@ pub fn nearest_default(db: &rbx_reflection::ReflectionDatabase<'static>, class: 
         }
     }
     None
+}
+
+/// the recorded class of C15's `unmigratable` finding: Enum.Font items above 45 (no FontToFontFace entry).  A legacy value
+/// OUTSIDE this class that PropertyMigration::perform rejects is a different failure and gets the key `migration-fails`.
+pub fn recorded_unmigratable(v: &Variant) -> bool {
+    match v {
+        Variant::Enum(e) => e.to_u32() > 45,
+        Variant::EnumItem(e) => e.value > 45,
+        _ => false,
+    }
+}
+pub fn unmig_key(v: &Variant) -> &'static str {
+    if recorded_unmigratable(v) { "unmigratable" } else { "migration-fails" }
 }
